@@ -42,7 +42,7 @@ def run(res, args):
     if not ok:
         return res.finish()
     rng = common.rng_for(res.seed, "c03")
-    mult = 1 if res.tier == "quick" else 10
+    mult = 1 if res.tier == "quick" else 40
     if not (res.proof_ok and res.corr_ok):
         mult *= 5
     items = []
